@@ -66,6 +66,10 @@ func (x *runner) idxKeys() string {
 	defer f.Close()
 	var ks []string
 	idx.WalkIndexFile(f, func(key types.NeedleId, offset types.Offset, size types.Size) error {
+		if os.Getenv("C04_DEBUG_IDX") != "" {
+			ks = append(ks, fmt.Sprintf("%d:%d:%d", uint64(key), offset.ToActualOffset(), int32(size)))
+			return nil
+		}
 		ks = append(ks, strconv.FormatUint(uint64(key), 10))
 		return nil
 	})
